@@ -190,35 +190,84 @@ def _cause(e):
             return ["parsed lookup list differs (%s%d)" % (e["shape"]["tab"], e["shape"]["typ"])]
         return ["instance does not conform to its shape (harness)"]
     if e["ev"] == "num":
-        if e["ppanic"] or not e["returned"] or e["leaks"]:
-            return ["number case: panic, hang or goroutine left"]
+        if not e["returned"]:
+            return ["hang"]
+        if e["ppanic"] or e["leaks"]:
+            return ["number case: panic or goroutine left"]
         if e["perr"]:
             return ["a number that fits its field is rejected (place %d)" % e["nk"]]
         return ["a number is not represented exactly: wrapped or accepted out of range (place %d)" % e["nk"]]
     if e["ev"] == "errline":
-        if e["ppanic"] or not e["returned"] or e["leaks"]:
-            return ["error-line case: panic, hang or goroutine left"]
+        if not e["returned"]:
+            return ["hang"]
+        if e["ppanic"] or e["leaks"]:
+            return ["error-line case: panic or goroutine left"]
         if not e["perr"]:
             return ["erroneous text %d accepted" % e["et"]]
         return ["error reported for the wrong line or token"]
     if e["ev"] == "mean":
+        if not e["returned"]:
+            return ["hang"]
         if e["perr"] or e["ppanic"]:
             return ["description %d not parsed: %s" % (e["mid"], (e["perr"] or e["ppanic"])[:60])]
         return ["description %d parsed to a different lookup list" % e["mid"]]
     return ["other"]
 
 
+MAX_HANGS = 3
+
+
 def _run_shards(ctx, binp, mode_args, outname, nshards, env, timeout):
-    """Run the harness in nshards parallel processes; returns [(output path, summary)]."""
+    """Run one harness mode in nshards parallel processes; returns [(output path, summary)].
+
+    Hang protocol (harness/cmd/c19): a process whose Parse/Explain call does not come back within the watchdog
+    time records the observation, prints a summary with "hung" and exits (its goroutines may spin for ever); a
+    fresh process continues after that case.  After MAX_HANGS hangs in one mode the sweep of that mode is
+    abandoned: the recorded hangs go straight to reproduction in isolation."""
+    state = {"hangs": 0}
+    lock = threading.Lock()
+
     def one(i):
-        out = outname % i
-        e = dict(env)
-        e["C19_SHARD"] = "%d/%d" % (i, nshards)
-        rc, txt = ctx.run([binp] + mode_args + [out], env=e, timeout=timeout)
-        return out, json.loads(txt.strip().splitlines()[-1])
+        res, skip, resume, part = [], [], "", 0
+        while True:
+            out = (outname % i) if part == 0 else (outname % i) + ".part%d" % part
+            e = dict(env)
+            e["C19_SHARD"] = "%d/%d" % (i, nshards)
+            if skip:
+                e["C19_SKIP"] = ",".join(skip)
+            if resume:
+                e["C19_RESUME"] = resume
+            rc, txt = ctx.run([binp] + mode_args + [out], env=e, timeout=timeout)
+            info = json.loads(txt.strip().splitlines()[-1])
+            if os.path.exists(out) and os.path.getsize(out) > 0:
+                res.append((out, info))
+            if not info.get("hung"):
+                return res
+            with lock:
+                state["hangs"] += 1
+                n = state["hangs"]
+            if info.get("skip"):
+                skip.append(info["skip"])
+            resume = info["resume"]
+            part += 1
+            if n >= MAX_HANGS or part > 2 * MAX_HANGS:
+                return res
 
     with concurrent.futures.ThreadPoolExecutor(max_workers=max(1, min(nshards, ctx.workers))) as ex:
-        return list(ex.map(one, range(nshards)))
+        outs = [x for r in ex.map(one, range(nshards)) for x in r]
+    if state["hangs"]:
+        ctx.notes.append("mode %s: %d call(s) did not return within the watchdog time%s" % (
+            mode_args[0], state["hangs"],
+            "; the sweep of this mode was abandoned after %d hangs" % MAX_HANGS if state["hangs"] >= MAX_HANGS else ""))
+    if not outs:
+        raise vlib.Infra("harness mode %s produced no output" % mode_args[0])
+    return outs
+
+
+def _stat(outs, key):
+    """Sum / first value of a summary field over the processes that finished normally."""
+    vals = [o[1][key] for o in outs if key in o[1]]
+    return vals
 
 
 def _find_case(case_file, cid):
@@ -264,6 +313,14 @@ def _replay_cases(ctx, cases, boost=1):
 
 def _report(ctx, case, ev, cause, count):
     part = {"parse": "totality", "rt": "roundtrip", "mean": "meaning", "num": "numbers", "errline": "error line"}[ev["ev"]]
+    if cause == "hang":
+        text = case.get("text") or ev.get("text") or ""
+        what = ("builder.Parse (or Explain) does not return: on the text %r (font %s) the call was still running after the "
+                "watchdog time (5 s; such a text is parsed in microseconds), twice more when recorded alone in a fresh "
+                "process [%d observations of this kind; case kind %s; origin: %s]"
+                % (text[:300], case.get("font"), count, case.get("kind"), (case.get("origin") or "")[:200]))
+        ctx.violation(what, sig={"part": "totality", "cause": "hang"}, case=case)
+        return
     if ev["ev"] == "parse":
         what = ("builder.Parse is not total (%s): on the text %r (font %s, GOMAXPROCS=%d, %d runs) it returned %d "
                 "times: %d lookups, %d errors (line numbers %d..%d, %d without a line, text has %d lines), %d panics, "
@@ -543,9 +600,9 @@ def run(ctx):
     nsh = ctx.pick(8, 16)
     envf = {"C19_REPS": str(ctx.pick(3, 20)), "C19_REAL": str(ctx.pick(1, 3))}
     fouts = _run_shards(ctx, binp, ["faults", fpath, cpath], os.path.join(d, "faults%d.ndjson"), nsh, envf, 2400)
-    nf = sum(o[1]["cases"] for o in fouts)
-    ctx.log("faults: %d texts from %d TLC fault cases, catalogue %d valid descriptions (%d not valid on this tree)" % (
-        nf, len(fcases), fouts[0][1]["catalogue"], fouts[0][1]["skipped"]))
+    nf = sum(_stat(fouts, "cases"))
+    ctx.log("faults: %d texts from %d TLC fault cases, catalogue %s valid descriptions (%s not valid on this tree)" % (
+        nf, len(fcases), (_stat(fouts, "catalogue") or ["?"])[0], (_stat(fouts, "skipped") or ["?"])[0]))
     # diagnostic: how often the real parser fails where the model decided to fail
     agree = collections.Counter()
     for path, _ in fouts:
@@ -563,10 +620,11 @@ def run(ctx):
     step = ctx.pick(3, 4)      # quick: about 45 descriptions, thorough: about 270
     vlib.write_ndjson(scat, cat[(ctx.seed % step)::step])
     souts = _run_shards(ctx, binp, ["sweep", scat], os.path.join(d, "sweep%d.ndjson"), nsh, envs, 2400)
-    ns = sum(o[1]["cases"] for o in souts)
-    ctx.log("sweep: %d texts (%d single-token mutations, %d random)" % (ns, souts[0][1]["mutations"], souts[0][1]["random"]))
-    mtrace = os.path.join(d, "mean.ndjson")
-    ctx.run([binp, "mean", mpath, mtrace], timeout=300)
+    ns = sum(_stat(souts, "cases"))
+    ctx.log("sweep: %d texts (%s single-token mutations, %s random)" % (
+        ns, (_stat(souts, "mutations") or ["?"])[0], (_stat(souts, "random") or ["?"])[0]))
+    mouts = _run_shards(ctx, binp, ["mean", mpath], os.path.join(d, "mean%d.ndjson"), 1, {}, 600)
+    mtraces = [o[0] for o in mouts]
     routs = _run_shards(ctx, binp, ["rt", spath], os.path.join(d, "rt%d.ndjson"), ctx.pick(2, 8), {}, 2400)
     ctx.log("round trips: %d shapes, %d hand-specified descriptions" % (len(shapes), len(means)))
     shown = 0
@@ -582,13 +640,13 @@ def run(ctx):
     parse_paths = [o[0] for o in fouts] + [o[0] for o in souts]
     rp = [o[0] for o in routs]
     if ctx.quick():
-        rejected = _validate(ctx, parse_paths + [mtrace] + rp, "DslTrace: all recorded observations",
+        rejected = _validate(ctx, parse_paths + mtraces + rp, "DslTrace: all recorded observations",
                              nf + ns + len(shapes) + len(means))
     else:
         jobs = [(parse_paths, "DslTrace: parse observations", nf + ns)]
         per = max(1, len(rp) // 4)
         chunks = [rp[i:i + per] for i in range(0, len(rp), per)]
-        chunks[0] = [mtrace] + chunks[0]
+        chunks[0] = mtraces + chunks[0]
         for ch in chunks:
             jobs.append((ch, "DslTrace: round-trip observations", (len(shapes) * len(ch)) // max(1, len(rp))))
         rejected = []
